@@ -9,6 +9,7 @@ import (
 
 	"github.com/lmorg/murex/debug"
 	"github.com/lmorg/murex/lang/state"
+	"github.com/lmorg/murex/utils/verifhook"
 )
 
 // FID (Function ID) table: ie table of murex `Process` processes
@@ -36,6 +37,7 @@ func (f *funcID) Register(p *Process) (fid uint32) {
 	p.Variables.process = p
 
 	f.mutex.Unlock()
+	verifhook.Event("fid.register", fid)
 
 	return
 }
@@ -49,6 +51,7 @@ func (f *funcID) Deregister(fid uint32) {
 	f.mutex.Lock()
 	delete(f.list, fid)
 	f.mutex.Unlock()
+	verifhook.Event("fid.deregister", fid)
 }
 
 // Proc gets process by FID
